@@ -229,7 +229,7 @@ PROPS = {
         assumptions=["hints = arguments 4-5 of vnode calls and the `_` entry of slot objects"],
     ),
     "C06": dict(
-        mc=[dict(module="MC_C06", heap="10g", actions=["EnterStmts", "ExitStmts", "EnterArrow", "ExitArrow", "AssignEnter", "AssignExit",
+        mc=[dict(module="MC_C06", heap="10g", actions=["EnterStmts", "ExitStmts", "EnterArrow", "ParamsDone", "ExitArrow", "AssignEnter", "AssignExit",
                                                            "SiteStep", "DrainModule"])], post=c06_post, obs_slim=c06_slim, judge="Judge_C06", want=["js", "scope"],
         rule="TLC model-checks Visitor.tla (the traversal state machine: pending-declaration frames, slot counter, assignment "
              "target, helper/import flags) over ALL module histories up to the bounds, for enableObjectSlots on and off (items: JSX sites needing no temporary / a "
